@@ -421,6 +421,7 @@ def run(ctx, res):
     check_cli(ctx, res, lib)
     check_merge(ctx, res, lib)
     check_editor_completion_content(ctx, res)
+    check_request(ctx, res)
     res.exhaustive = True
 
 
@@ -655,3 +656,76 @@ def check_editor_completion_content(ctx, res):
             raise KeyError("Editor::autocompletion: only %d exits (%d completing) analysed" % (n, ncompl))
     finally:
         absint.WIDEN_AT = old
+
+
+def check_request(ctx, res):
+    """A7: the word that is completed.  `Request::from_input(text)` is interpreted in the content domain (helpers such as
+    `utils::trim_start` inlined) for every text: whenever it hands out a command name, that name is the text from the
+    first byte that is not a blank (0x20) - found by one forward search over the whole text, or by counting the leading
+    blanks (`take_while(b == 0x20).count()`) - to the end of the text.
+    Nothing else is stripped (a name that starts with any other character, e.g. a no-break space, matches no command and
+    must leave the line unchanged) and nothing is cut off at the end."""
+    from .. import absint, fm
+    from . import C03, content
+    from .content import ZERO
+    from .common import lib_crate
+    lib = lib_crate(ctx.crates('default'))
+    fs = [f for f in lib.lib_fns() if base.self_adt(f) == 'autocomplete::Request' and f.name == 'from_input']
+    if len(fs) != 1:
+        raise KeyError("autocomplete::Request::from_input: %d candidates" % len(fs))
+    f = fs[0]
+    class R(content.ContentE3):
+        # `utils::trim_start` is followed into its body here (C03 summarises it by a length contract)
+        def on_call(self, I, w, ci, args):
+            if (ci.nresolved or ci.npath or '').endswith('utils::trim_start'):
+                return None
+            return content.ContentE3.on_call(self, I, w, ci, args)
+
+        def inline_ok(self, I, ci, body):
+            return body.npath.endswith('utils::trim_start') or content.ContentE3.inline_ok(self, I, ci, body)
+    rule = R(lib)
+    rule.track_none = True
+    inv, keymap = C03.inventory(lib)
+    rule.keymap = keymap
+    rule.ctx = 'Request::from_input'
+    I = Interp([lib], rule, max_worlds=20000)
+    args, facts = C03.sym_args(rule, f, None)
+    if not args or args[0][0] != 'slc':
+        raise KeyError("Request::from_input: the text parameter is not a slice (%r)" % (args,))
+    text = args[0]
+    tlen = content.lin_of(text[2])
+    start = frozenset(list(facts) + [content._mk('off', (repr(text), text[1], ZERO))])
+    nsome = nnone = 0
+    for w, rv in I.run(f, args, start, {}):
+        if rv[0] == 'adt' and rv[1] == OPTION and rv[2] == 0:
+            nnone += 1
+            continue
+        nsome += 1
+        name = None
+        if rv[0] == 'adt' and rv[1] == OPTION and rv[2] == 1 and rv[3] and rv[3][0][0] == 'adt' and len(rv[3][0][3]) == 1:
+            name = rv[3][0][3][0]
+        why = None
+        if name is None or name[0] != 'slc':
+            why = "the name handed to the completer is not a piece of the text (%s)" % (str(name)[:60],)
+        else:
+            loc = rule.where(w, name)
+            ln = content.lin_of(rule.slc_len(I, w, name))
+            if loc is None or ln is None:
+                why = "where the name lies in the text cannot be decided (derived by an operation without a content model)"
+            else:
+                first = [m for m in content.markers(w, 'pos') + [m + (False,) for m in content.markers(w, 'cnt')]
+                         if m[1] == text[1] and m[2] == ZERO and m[3] == tlen and m[4] == ('ne', 0x20) and m[5] is False]
+                at_first = [m for m in first if loc == (text[1], fm.lin_atom(m[0]))]
+                if not at_first:
+                    why = ("the name does not start at the first byte of the text that is not a blank (0x20) as found by a forward "
+                           "search over the whole text: it starts at %s" % content.fmt(loc[1]))
+                else:
+                    end = fm.add(loc[1], ln)
+                    if not (rule.prove(w, fm.le(end, tlen)) and rule.prove(w, fm.le(tlen, end))):
+                        why = "the name does not extend to the end of the text (ends at %s)" % content.fmt(end)
+        good = why is None
+        res.oblige("A7|%d|%s" % (nsome, (why or '')[:60]), good, sample="Request::from_input: name = text[first non-blank ..]",
+                   violation=None if good else dict(rule='C11.request', key="C11|request|%s" % (why or '')[:60],
+                                                    msg="autocomplete::Request::from_input: " + (why or '')))
+    if nsome < 1 or nnone < 1:
+        raise KeyError("Request::from_input: %d exits with a name, %d without analysed" % (nsome, nnone))
